@@ -33,8 +33,9 @@ What is proved (all for arbitrary lists / arbitrary length):
     reversed sub-path starts at the last point of the body), `reverse_segs`, `reverse_reverse_els`,
     `reverse_reverse_segs`; and, in terms of the model functions only, the single-sub-path cases
     `reverse_single_open` (`MoveTo p :: body`) and `reverse_single_closed` (`MoveTo p :: body ++ [ClosePath]`).
-* 7 `builder_history_irrelevant` is trivial in this model and therefore not a theorem here: `segs`, `getSeg`, … are
-    functions of the final element list only; the builder operations are list operations.
+* 7 `builder_history_irrelevant` is trivial in THIS model (`segs`, `getSeg`, … are functions of the final element list only) and
+    therefore not a theorem here; the builder operations with their debug assertions are modelled as a state machine in
+    `Kurbo/PathMut.lean`, and `Proofs/C07M.lean` proves that every non-panicking history computes the obvious list function.
 * "the Shape segment iterator agrees": in the crate `Shape::path_segments` is `segments(self.path_elements(tol))`
     and `BezPath::path_elements` iterates the element vector, i.e. it is the very function modelled by `segs`;
     there is no second definition to compare with in this model.
